@@ -604,12 +604,20 @@ def run_restart_scenario(seed, n_events=12, kill=True):
                 ctxs.append(c)
         names = ["h", "h", "k"]
         for _ in range(n_events):
-            ev = r.choices(["register", "unregister", "badreg", "spawn", "define", "call", "trig"], [6, 2, 1, 3, 3, 1, 2])[0]
+            ev = r.choices(["register", "unregister", "badreg", "spawn", "define", "call", "trig", "failreg"], [6, 2, 1, 3, 3, 1, 2, 1.5])[0]
             c = r.choice(ctxs)
             if ev == "register":
                 n = r.choice(names)
                 i = cl.append(n + ".register", ctx=c, body=HANDLER_PONG.encode())
                 cl.wait_topic(n + ".registered", ctx=c, after=i or 0, timeout=5)
+            elif ev == "failreg":
+                # a handler whose results are ephemeral and whose closure fails on the first trigger: its failure report
+                # (<name>.unregistered) is what keeps it from coming back at the next start
+                n = r.choice(names)
+                i = cl.append(n + ".register", ctx=c, body=('{ resume_from: "tail", return_options: {ttl: "ephemeral"}, run: {|frame| '
+                                                           'if $frame.topic != "trig" { return }; error make {msg: "boom"} } }').encode())
+                cl.wait_topic(n + ".registered", ctx=c, after=i or 0, timeout=5)
+                cl.append("trig", ctx=c); cl.settle(0.3, 4)
             elif ev == "badreg":
                 n = r.choice(names)
                 i = cl.append(n + ".register", ctx=c, body=HANDLER_BAD.encode())
@@ -695,6 +703,14 @@ def run_restart_scenario(seed, n_events=12, kill=True):
                              f"{[hex(i)[-6:] for i in want]} should be active (keyed by (context, name)); before the restart "
                              f"{[hex(i)[-6:] for i in ids(live[kind])]} answered; events: {' '.join(rep['events'])}",
                         kind=kind, spec=want, got=got, name_keyed_model=sorted(code[kind])))
+            # nothing that had stopped answering before the process went down may answer again afterwards (e.g. a handler
+            # whose failure report was not stored)
+            for kind in ("handlers", "generators"):
+                back = sorted(set(ids(after[kind])) - set(ids(live[kind])))
+                if back:
+                    rep["violations"].append(dict(
+                        what=f"{kind} {[hex(i)[-6:] for i in back]} did not answer before the restart (stopped, failed or replaced) but "
+                             f"answer after it; events: {' '.join(rep['events'])}", kind=kind + "-came-back"))
             # commands: the table in force is whatever the code keeps; what must hold: same answers before and after
             if ids(after["commands"]) != ids(live["commands"]):
                 rep["violations"].append(dict(
@@ -746,7 +762,11 @@ def render_command(p):
     if p.get("fail"):
         body.append('    error make {msg: "boom"}')
     vals = p.get("values", [])
-    if p.get("module"):
+    if p.get("lazyerr"):
+        # a stream whose second item fails when it is pulled: the item arrives as an error VALUE (rendered as null), the call
+        # still has exactly one terminal event
+        body.append('    [1 2 3] | each {|x| if $x == 2 { error make {msg: "boom"} } else { $x } }')
+    elif p.get("module"):
         body.append("    m2 g")          # the values come from a command of the script's own module
     elif p.get("count"):
         body.append("    [$env.count]")
@@ -823,6 +843,8 @@ def run_command_scenario(seed, n_events=12):
                          slow_ms=r.choice([0, 0, 150]), count=r.random() < 0.3, single=r.random() < 0.2)
                 if r.random() < 0.2:
                     p.update(module=True, values=["m-a", "m-b"], count=False, single=False)
+                elif r.random() < 0.2:
+                    p.update(lazyerr=True, values=[1, None, 3], count=False, single=False, fail=False)
                 script = render_command(p)
                 i = cl.append(n + ".define", ctx=c, body=script.encode())
                 defs[i] = p
@@ -831,7 +853,10 @@ def run_command_scenario(seed, n_events=12):
                     rep["scripts"].append(script[:300])
                 cl.settle(0.15, 3)
             elif k == "baddefine":
-                i = cl.append(n + ".define", ctx=c, body=b"{ run: {|frame| ")
+                # a script that does not parse, or options that are not valid (a TTL the grammar rejects): reported, never in force
+                i = cl.append(n + ".define", ctx=c, body=r.choice([
+                    b"{ run: {|frame| ", b'{ return_options: {ttl: "head:0"}, run: {|frame| "x" } }',
+                    b'{ return_options: {ttl: "time:5s"}, run: {|frame| "x" } }', b'{ return_options: {ttl: 5}, run: {|frame| "x" } }']))
                 evs.append((i, "define", n, c, False))
                 cl.settle(0.15, 3)
             elif k == "call":
